@@ -357,6 +357,10 @@ class Unregister(_RegBase):
                       z3.Implies(z3.And(k != DAEMON_KEY, p0), z3.And(z3.Not(has_attr(st, o, "_pyroId")), z3.Not(has_attr(st, o, "_pyroDaemon"))))),
                      ("nothing changes for an id that was not registered", z3.Implies(z3.Not(p0), same_attrs(old, st, o))),
                      ("the object's id and daemon attributes still come and go together", self.pair_invariant(st, o))]
+        else:
+            anyobj = z3.Const("any_object", U)
+            post.append(("unregistering BY ID touches no object's id / daemon attributes: the object that held the id may still be registered under another id (and must then "
+                         "keep being sent as a proxy), and whether it travels by value afterwards is decided by the registry, not by a cleared attribute", same_attrs(old, st, anyobj)))
         return post
 
     def x_unchanged(self, E, old, st, a, exc):
